@@ -86,6 +86,9 @@ Definition bdo_action (inp : list Z) (cap : Z) (r : prule) (m : pmatch) (out pm 
       | AOmit => (out1, pm1', Some (m_er m))
       | ACopy =>
           let count := dsr - dsm in
+          (* the same capacity test as the forward direction (memmove of the cells copied in front of the brackets) *)
+          if (count >? 0) && (dsr + count >? cap) then (out1, pm1', None)
+          else
           let out2 := if count >? 0 then firstn (Z.to_nat dsm) out1 else out1 in
           match bcopy_chars inp cap out2 pm1' (m_sr m) (m_er m) with
           | None => (out2, pm1', None)
